@@ -272,10 +272,11 @@ def _quoted_in_python(ctx: Ctx):
     df = pd.DataFrame({nm: [float((k * (i + 2)) % 7 + 1) for k in range(n)] for i, nm in enumerate(names)})
     funcs = {"np.log": np.log, "np.exp": lambda v: np.exp(v / 8), "max0": None, "np.sqrt": np.sqrt, "abs": np.abs}
     for i in range(ctx.n(150, 2000)):
-        k = rng.choice([1, 1, 2, 3])
+        k = rng.choice([1, 1, 2, 3, 4])
         cols = [rng.choice(names) for _ in range(k)]
         if k >= 2 and rng.random() < 0.5:          # names that collide after sanitisation, side by side
-            cols = rng.sample(rng.choice([["a b", "a|b", "a-b", "a.b", "a_b"], ["1st", "_1st"], ["x y", "x-y"]]), 2) + cols[2:]
+            grp = rng.choice([["a b", "a|b", "a-b", "a.b", "a_b"], ["a b", "a|b", "a-b", "a.b", "a_b"], ["1st", "_1st"], ["x y", "x-y"]])
+            cols = rng.sample(grp, min(len(grp), max(2, k))) + cols[len(grp):]
         fn = rng.choice(["np.log", "np.sqrt", "np.abs", "np.maximum", "I"])
         if fn == "np.maximum":
             cols = (cols + [rng.choice(names)])[:2] if len(cols) < 2 else cols[:2]
